@@ -114,6 +114,8 @@ LAYERS = {
              'lands on another client\'s connection'),
             ('C08', {'R08.6'}, 'R10.10', 'the calls a client pipelined in front of a streaming call are answered before the connection is parked with its stream: a reply that the '
              'handler only enqueued stays in the write buffer for as long as the stream is silent'),
+            ('C20', {'R20.10', 'R20.2', 'R20.4'}, 'R10.13', 'the items a service streams usually come from the notified State: they reach the subscriber only if a value set while the server is parked '
+             'wakes the server - a reply stream that leaves no waker registered (or drops / never takes its subscription) delivers nothing until an unrelated event turns the loop'),
             ('C08', {'R08.1', 'R08.2'}, 'R10.12', 'a connection is parked with a stream only for a call that is owed replies: a oneway call answered with a stream would put items on the wire '
              'that the client does not wait for, ahead of the replies to the calls pipelined behind it')],
     'C12': [('C02', 'R02.', 'R12.12', 'every generated method hands its call to enqueue / send_call: one document, one NUL, also for the second call of a chain'),
